@@ -217,14 +217,21 @@ def _chunk(arg):
     out = {"cases": 0, "sites": 0, "kinds": {}, "fails": [], "samples": [], "hashes": []}
     for idx in idxs:
         rng = rng_for(seed, "fault", idx)
-        c = corr_play.make_case(seed, f"fault:{idx}", dict(faults=0, stmt_faults=0, hooks=0.4, join=0.3, params=0.5,
+        c = corr_play.make_case(seed, f"fault:{idx}", dict(faults=0, stmt_faults=0, hooks=0.4, join=(0.9 if idx % 3 == 0 else 0.3), params=0.5,
                                                              loops=0.5, conds=0.8, render=0.4),
-                                n_ops, "main", dict(choose=70, goto=6, undo=6, redo=4, read=4, bad=2, save=2, load=2, fresh=2, loadbad=0))
+                                n_ops, "main", dict(choose=(85 if idx % 3 == 0 else 70), goto=6, undo=6, redo=4, read=4, bad=2, save=2, load=2, fresh=2, loadbad=0))
         if "story" not in c or c["real"].get("status") != "ok":
             continue
         out["cases"] += 1
         ss = sites(c["story"])
         rng.shuffle(ss)
+        # sites in a section after a @join marker (reached only through `-> @join` choices) first: they are rare
+        def after_marker(path):
+            if len(path) >= 4 and path[0] == "passages" and path[2] == "content" and isinstance(path[3], int):
+                toks = c["story"]["passages"][path[1]]["content"]
+                return any(t.get("type") == "join_marker" for t in toks[:path[3]])
+            return False
+        ss.sort(key=lambda pk: 0 if after_marker(pk[0]) and pk[1] in ("stmt", "block") else 1)
         for path, kind in ss[:per_case]:
             out["sites"] += 1
             out["kinds"][kind] = out["kinds"].get(kind, 0) + 1
